@@ -219,7 +219,8 @@ example : assemble [⟨"A", "items", [.obj [("items", .arr [x1, x2])]]⟩] = .ok
   **C16.4** the `--merge` decision table, as a function of `mergeParts m`
   (`m.split("_") if "_" in m else m`): `percent` ↦ the default percent policy; `percent_N` ↦ `N/100` as
   given by the float oracle, `ValueError` when `float(N)` raises; `number`, `number_N` likewise with `int`;
-  `exact`; extra arguments ↦ `TypeError` (the comparator constructor's arity); unknown name ↦ `ValueError`.
+  `exact`; extra arguments ↦ `TypeError` (the comparator constructor's arity) once the first argument has been converted — an
+  unparsable first argument is a `ValueError` whatever follows (the converter runs first); unknown name ↦ `ValueError`.
 -/
 theorem opts_table (po : PercentOracle) (io : IntOracle) (dp : Nat × Nat) (dn : Nat) (m : String) :
     (mergeParts m = ["percent"] → parseMerge po io dp dn m = .ok (.percent dp.1 dp.2)) ∧
@@ -233,12 +234,16 @@ theorem opts_table (po : PercentOracle) (io : IntOracle) (dp : Nat × Nat) (dn :
     (mergeParts m = ["exact"] → parseMerge po io dp dn m = .ok .exact) ∧
     (∀ a, mergeParts m = ["exact", a] → parseMerge po io dp dn m = .error .typeError) ∧
     (∀ name a b rest, mergeParts m = name :: a :: b :: rest →
-        (name = "percent" ∨ name = "number" ∨ name = "exact") →
+        ((name = "percent" ∧ ∃ v, po a = some (some v)) ∨ (name = "number" ∧ ∃ i, io a = some (some i)) ∨ name = "exact") →
         parseMerge po io dp dn m = .error .typeError) ∧
+    (∀ a b rest, mergeParts m = "percent" :: a :: b :: rest → po a = some none →
+        parseMerge po io dp dn m = .error .valueError) ∧
+    (∀ a b rest, mergeParts m = "number" :: a :: b :: rest → io a = some none →
+        parseMerge po io dp dn m = .error .valueError) ∧
     (∀ name rest, mergeParts m = name :: rest → name ≠ "percent" → name ≠ "number" → name ≠ "exact" →
         parseMerge po io dp dn m = .error .valueError) := by
   rw [parseMerge_eq]
-  refine ⟨?_, ?_, ?_, ?_, ?_, ?_, ?_, ?_, ?_, ?_⟩
+  refine ⟨?_, ?_, ?_, ?_, ?_, ?_, ?_, ?_, ?_, ?_, ?_, ?_⟩
   · intro h; rw [h]; rfl
   · intro a n d h hp; rw [h]; simp [parseParts, hp, pure, Except.pure]
   · intro a h hp; rw [h]; simp [parseParts, hp]
@@ -248,6 +253,8 @@ theorem opts_table (po : PercentOracle) (io : IntOracle) (dp : Nat × Nat) (dn :
   · intro h; rw [h]; rfl
   · intro a h; rw [h]; exact parseParts_exact_arg po io dp dn a
   · intro name a b rest h hn; rw [h]; exact parseParts_too_many po io dp dn name a b rest hn
+  · intro a b rest h hp; rw [h]; exact (parseParts_bad_first po io dp dn a b rest).1 hp
+  · intro a b rest h hi; rw [h]; exact (parseParts_bad_first po io dp dn a b rest).2 hi
   · intro name rest h h1 h2 h3; rw [h]; exact parseParts_unknown po io dp dn name rest h1 h2 h3
 
 /-- names without an underscore are not split: the bare-policy rows need no hypothesis on `mergeParts` -/
@@ -263,7 +270,7 @@ theorem opts_bare (po : PercentOracle) (io : IntOracle) (dp : Nat × Nat) (dn : 
   refine ⟨((opts_table po io dp dn _).1 hp), ((opts_table po io dp dn _).2.2.2.1 hn),
     ((opts_table po io dp dn _).2.2.2.2.2.2.1 he), ?_⟩
   intro m hm h1 h2 h3
-  exact (opts_table po io dp dn m).2.2.2.2.2.2.2.2.2 m [] (mergeParts_of_no_underscore m hm) h1 h2 h3
+  exact (opts_table po io dp dn m).2.2.2.2.2.2.2.2.2.2.2 m [] (mergeParts_of_no_underscore m hm) h1 h2 h3
 
 /-- a policy argument without an underscore -/
 def NoUnderscore (a : String) : Prop := '_' ∉ a.toList
@@ -296,18 +303,26 @@ theorem opts_with_arg (po : PercentOracle) (io : IntOracle) (dp : Nat × Nat) (d
   · rw [parseMerge_eq, h3]; exact parseParts_exact_arg po io dp dn a
 
 /-- every merge item is the `_`-join of its underscore-free segments, and is decided on those segments:
-    an unknown first segment is a `ValueError`, a known one with two or more arguments a `TypeError` -/
+    an unknown first segment is a `ValueError`, a known one with two or more arguments a `TypeError` once its first
+    argument converts, a `ValueError` when it does not -/
 theorem opts_by_segments (po : PercentOracle) (io : IntOracle) (dp : Nat × Nat) (dn : Nat)
     (name : String) (rest : List String) (h : ∀ p ∈ name :: rest, NoUnderscore p) :
     (name ≠ "percent" → name ≠ "number" → name ≠ "exact" →
       parseMerge po io dp dn ("_".intercalate (name :: rest)) = .error .valueError) ∧
-    (∀ a b rest', rest = a :: b :: rest' → (name = "percent" ∨ name = "number" ∨ name = "exact") →
-      parseMerge po io dp dn ("_".intercalate (name :: rest)) = .error .typeError) := by
+    (∀ a b rest', rest = a :: b :: rest' →
+      ((name = "percent" ∧ ∃ v, po a = some (some v)) ∨ (name = "number" ∧ ∃ i, io a = some (some i)) ∨ name = "exact") →
+      parseMerge po io dp dn ("_".intercalate (name :: rest)) = .error .typeError) ∧
+    (∀ a b rest', rest = a :: b :: rest' → name = "percent" → po a = some none →
+      parseMerge po io dp dn ("_".intercalate (name :: rest)) = .error .valueError) ∧
+    (∀ a b rest', rest = a :: b :: rest' → name = "number" → io a = some none →
+      parseMerge po io dp dn ("_".intercalate (name :: rest)) = .error .valueError) := by
   have hp : mergeParts ("_".intercalate (name :: rest)) = name :: rest :=
     mergeParts_intercalate _ (by simp) h
-  refine ⟨fun h1 h2 h3 => ?_, fun a b rest' hr hn => ?_⟩
+  refine ⟨fun h1 h2 h3 => ?_, fun a b rest' hr hn => ?_, fun a b rest' hr hn hv => ?_, fun a b rest' hr hn hv => ?_⟩
   · rw [parseMerge_eq, hp]; exact parseParts_unknown po io dp dn name rest h1 h2 h3
   · rw [parseMerge_eq, hp, hr]; exact parseParts_too_many po io dp dn name a b rest' hn
+  · rw [parseMerge_eq, hp, hr, hn]; exact (parseParts_bad_first po io dp dn a b rest').1 hv
+  · rw [parseMerge_eq, hp, hr, hn]; exact (parseParts_bad_first po io dp dn a b rest').2 hv
 
 /-- a concrete float oracle: `float("95")/100 = 95/100`, `float("x")` raises -/
 def po₀ : PercentOracle := fun s => if s = "95" then some (some (95, 100)) else if s = "x" then some none else none
@@ -323,7 +338,11 @@ example : parseMerge po₀ io₀ (70, 100) 10 "number_3" = .ok (.number 3) :=
 example : parseMerge po₀ io₀ (70, 100) 10 "percent" = .ok (.percent 70 100) := (opts_bare po₀ io₀ (70, 100) 10).1
 example : parseMerge po₀ io₀ (70, 100) 10 "fuzzy" = .error .valueError :=
   (opts_bare po₀ io₀ (70, 100) 10).2.2.2 "fuzzy" (by decide) (by decide) (by decide) (by decide)
-example : parseMerge po₀ io₀ (70, 100) 10 "percent_1_2" = .error .typeError :=
-  (opts_by_segments po₀ io₀ (70, 100) 10 "percent" ["1", "2"] (by unfold NoUnderscore; decide)).2 "1" "2" [] rfl (.inl rfl)
+example : parseMerge po₀ io₀ (70, 100) 10 "percent_95_2" = .error .typeError :=
+  (opts_by_segments po₀ io₀ (70, 100) 10 "percent" ["95", "2"] (by unfold NoUnderscore; decide)).2.1 "95" "2" [] rfl
+    (.inl ⟨rfl, (95, 100), by simp [po₀]⟩)
+example : parseMerge po₀ io₀ (70, 100) 10 "percent_x_2" = .error .valueError :=     -- the converter runs before the arity check
+  (opts_by_segments po₀ io₀ (70, 100) 10 "percent" ["x", "2"] (by unfold NoUnderscore; decide)).2.2.1 "x" "2" [] rfl rfl
+    (by simp [po₀])
 
 end J2M.C16
